@@ -391,7 +391,7 @@ def small(chk, facts, cm):
     for n in (0, 1, 2, 3):
         key = "Cube::all(%d)" % n
         try:
-            it = Interp(facts, max_paths=64, max_steps=20000000)
+            it = Interp(facts, max_paths=64, max_steps=1000000)
             st = State()
             outs = it.call_body(b, [wconst(64, n)], st, {})
             o, v, d = single_return(outs)
